@@ -172,6 +172,17 @@ class Verifier:
             ):
                 self.verify_subroutine_call(instruction)
 
+        # Check that the def-use information matches the operands:
+        operands = list(instruction._var_map.values())
+        if isinstance(instruction, (ir.FunctionCall, ir.ProcedureCall)):
+            operands.extend(instruction.arguments)
+        elif isinstance(instruction, ir.Phi):
+            operands.extend(instruction.inputs.values())
+        elif isinstance(instruction, ir.InlineAsm):
+            operands.extend(instruction.input_values)
+            operands.extend(instruction.output_values)
+        assert set(instruction.uses) == set(operands)
+
         # Verify that all uses are defined before this instruction.
         for value in instruction.uses:
             issue = f"{value} does not dominate {instruction}"
